@@ -25,6 +25,12 @@ KNOWN = [
  (r"^C11\.R1\|.*DiskCache as AsyncCache>::get.*\|stale-check-remove\|#1$", "read-error branch: 10301 times the reader deleted the fresh entry / left a dangling index entry (get -> Err(NotFound))", "findings/B7"),
  (r"^C11\.R2\|.*DiskCache as AsyncCache>::get.*\|delta-from-snapshot\|disk_usage$", "usage decremented by the snapshot's size (stats (0, 990) after the race)", "findings/B7"),
  (r"^C11\.R2\|.*DiskCache as AsyncCache>::get.*\|delta-from-snapshot\|disk_usage\|#1$", "same on the read-error branch", "findings/B7"),
+ (r"^C11\.R9\|.*DiskCache as AsyncCache>::get.*\|decrement-on-removal\|entry_count$", "expired branch of get: `index.remove(key)` result dropped, then entry_count.fetch_sub(1) unconditionally - two racing readers wrap entry_count to 18446744073709551615 (same defect as C10.R3 remove-result-dropped, seen by the decrement rule)", "findings/B7"),
+ (r"^C11\.R9\|.*DiskCache as AsyncCache>::get.*\|decrement-on-removal\|disk_usage$", "same branch, disk_usage wraps to 2^64-100", "findings/B7"),
+ (r"^C11\.R9\|.*DiskCache as AsyncCache>::get.*\|decrement-on-removal\|entry_count\|#1$", "read-error branch of get: same unconditional decrement after a dropped remove result", "findings/B7"),
+ (r"^C11\.R9\|.*DiskCache as AsyncCache>::get.*\|decrement-on-removal\|disk_usage\|#1$", "same for disk_usage on the read-error branch", "findings/B7"),
+ (r"^C11\.R9\|.*DiskCache>::start_cleanup_task.*\|decrement-on-removal\|entry_count$", "cleanup task: `index.remove(&key)` result dropped before the decrement, and the counter it decrements is the task's own Arc (stats still show entries=10 after 10 deletions) - the site of C10.R3 own-counter", "findings/B5"),
+ (r"^C11\.R9\|.*DiskCache>::start_cleanup_task.*\|decrement-on-removal\|disk_usage$", "same for bytes", "findings/B5"),
  (r"^C11\.R3\|.*DiskCache>::write_file.*\|shared-temp-name$", "same key, 4 writers x 1500 puts: 988 put errors (ENOENT on rename) and 223 torn reads", "findings/B8"),
  (r"^C11\.R3\|.*IndexManager>::save_index\|shared-temp-name$", "8 threads calling save_all(&self): 186-217 spurious 'Failed to rename temp file' errors and 1731-3040 torn-file reads", "findings/C8"),
  (r"^C15\.R3\|.*start_server.*\|accept-error-stays$", "with RLIMIT_NOFILE lowered and the last fd taken, start_server returns Err(Shutdown(Too many open files)); afterwards new clients get ConnectionRefused", "findings/C10"),
@@ -44,6 +50,9 @@ KNOWN = [
 ]
 
 FIXED = [
+ ("C02", "d16909a", "C02.R3 archive index footer hash size: 36-byte file with footer_hash_bytes = 16 panicked in IndexFooter::is_valid, 24-byte file with footer_hash_bytes = 4 in the checksum-error branch of ArchiveIndex::parse / ChunkedArchiveIndex::open (findings/D1)"),
+ ("C02", "b0cbecc", "C02.R3 patch index key_size > 16: a 95-byte patch index whose block 2 declares key_size = 17 panicked in PatchIndexEntry::parse (findings/D2)"),
+ ("C02", "c1c0648", "C02.R4 .idx header widths 16/120/120 (and 9/250/0, 9/255/255): u8 overflow panic (debug) / wrap to 0 and slice panic (release) in IndexManager::load_index (findings/D3)"),
  ("C01", "7d97588", "C01.R1 add_data const-index / chunk_index = 0: with_encryption + two add_data calls decoded to garbage with Ok (findings/A1)"),
  ("C02", "23be953", "C02.R1 Option::expect in ExtendedHeader/EncryptedHeader #[br(map)]: 12-byte input 'BLTE 0000000C 00 000000' made BlteFile::parse panic (findings/A3)"),
  ("C16", "3344cca", "C16.R1 build_chunked_patch absolute seek: old='ABCDEFGH', new='ABCD'+256*'x'+'EFGH' applied Ok to a different tail (findings/A5)"),
